@@ -19,42 +19,7 @@ LIST = "fcppt::intrusive::list"
 THIS = ("this",)
 
 
-def flatten_paths(stmts):
-    """paths through structured statements: list of lists of (stmt, conds) with if-splitting"""
-    paths = [([], [])]
-    for s in stmts:
-        if s is None:
-            continue
-        if s.get("k") == "if":
-            thn = s.get("then")
-            els = s.get("else")
-            t_items = thn.get("ch", []) if thn is not None and thn.get("k") == "compound" else ([thn] if thn else [])
-            e_items = els.get("ch", []) if els is not None and els.get("k") == "compound" else ([els] if els else [])
-            new = []
-            for (items, conds) in paths:
-                for (sub_items, sub_conds) in flatten_paths(t_items):
-                    new.append((items + sub_items, conds + [(s.get("cond"), True)] + sub_conds))
-                for (sub_items, sub_conds) in flatten_paths(e_items):
-                    new.append((items + sub_items, conds + [(s.get("cond"), False)] + sub_conds))
-            paths = new
-        elif s.get("k") == "compound":
-            new = []
-            for (items, conds) in paths:
-                for (sub_items, sub_conds) in flatten_paths(s.get("ch", [])):
-                    new.append((items + sub_items, conds + sub_conds))
-            paths = new
-        else:
-            paths = [(items + [s], conds) for (items, conds) in paths]
-    # cut each path at its first return
-    out = []
-    for (items, conds) in paths:
-        cut = []
-        for it in items:
-            cut.append(it)
-            if it.get("k") == "return":
-                break
-        out.append((cut, conds))
-    return out
+flatten_paths = L.flatten_paths
 
 
 def link_events(u, fn, stmts):
